@@ -92,6 +92,7 @@ type Machine struct {
 	stubsUsed  map[string]bool
 	timeVarSeq int
 	lastNow    *term.T
+	preemptions int
 	expl       *Explorer
 }
 
